@@ -11,6 +11,34 @@ ENGINES = [
 ]
 
 CHECKS = {
+    "C08": {
+        "text": "Static analysis: zero_pad summarised into its three yield segments (complete for that sentence); blocks "
+                "analysed as a counter automaton over idx with symbolic size/hop: first block after exactly size appended "
+                "items, period exactly hop pulled items (hop-size skipped, size appended when hop > size), reset size-hop "
+                "in both loops, append-before-yield, tail test idx > max(size-hop, 0) and padding of size-idx values. "
+                "With deque(maxlen=size) this is 'block k = items k*hop..k*hop+size-1' for every input length.",
+        "note": NOTE,
+        "technique": "yield-segment summaries + symbolic counter-automaton derivation (linear normal forms)",
+    },
+    "C19": {
+        "text": "Static analysis: every loop leaf of modulo_counter simulated one iteration in normal form (accumulator "
+                "L = c + n*step - lastp advances by the current step modulo `modulo`, yields L + start reduced twice), "
+                "fast path included; line/ones/zeros/impulse/noise/adsr/attack yield segments compared with closed forms; "
+                "sinusoid/karplus_strong/fade bindings; TableLookup interpolation weights and index step; resample has "
+                "no StopIteration escape and the documented window/threshold/step shape. Values in floating point are "
+                "not computed.",
+        "note": NOTE,
+        "technique": "per-leaf inductive step in rational normal form + yield-segment summaries + PEP-479 escape analysis",
+    },
+    "C20": {
+        "text": "Static analysis: clip is bounded on every conditional leaf (guard-implies-bound; complete for bounding "
+                "and idempotence); one output per input (typestate) and no StopIteration escape for zcross/unwrap/"
+                "maverage.deque/accumulate.func; zcross and unwrap decision conditions in linear normal form; "
+                "maverage.deque inductive step; recursive = fir as rational functions for sizes 1..16 (bounded); "
+                "accumulate.z; envelope/amdf compositions. Strategy equivalence on signals is not decided.",
+        "note": NOTE,
+        "technique": "guard-implies-bound on conditional leaves, pull/yield typestate, normal-form comparison of conditions",
+    },
     "C02": {
         "text": "Static analysis over a frozen stage table (70 stages): taint of source handles shows no pull effect at "
                 "construction time in any non-generator stage (R2.1; tostream is exactly Stream(func(...))); abstract "
